@@ -348,17 +348,21 @@ class HasObservables:
         else:
             names = self.observables.keys()
 
-        for name in names:
-            if not isinstance(signal_type, All):
+        # validate for all names before subscribing to any, so that a rejected
+        # call leaves the subscriptions untouched
+        if not isinstance(signal_type, All):
+            for name in names:
                 if signal_type not in self.observables[name]:
                     raise ValueError(
                         f"you are trying to subscribe to a signal of {signal_type} "
                         f"on Observable {name}, which does not emit this signal_type"
                     )
-                else:
-                    signal_types = [
-                        signal_type,
-                    ]
+
+        for name in names:
+            if not isinstance(signal_type, All):
+                signal_types = [
+                    signal_type,
+                ]
             else:
                 signal_types = self.observables[name]
 
